@@ -233,12 +233,21 @@ def run_stream(cfg):
             if not (v >= 0) or not math.isfinite(float(v)):
                 return Result(False, key='C16:variance-negative', detail=f'call {t + 1}: variance of {f!r} is {v!r}')
         bounds = {}
-        for delta in cfg['deltas']:
+        for j, delta in enumerate(cfg['deltas']):
             dl = float(delta) if 'e' in delta else float(Q(delta))
+            # the same delta as a Python float, a NumPy float, the int 1 (the closed end of ]0, 1]) or - where exactly representable - float32
+            how = (t + j) % 4
+            d_arg = dl
+            if how == 1:
+                d_arg = np.float64(dl)
+            elif how == 2 and dl == 1.0:
+                d_arg = 1
+            elif how == 2 and float(np.float32(dl)) == dl:
+                d_arg = np.float32(dl)
             try:
-                b = ex.get_confidence_bound(dl)
+                b = ex.get_confidence_bound(d_arg)
             except Exception as e:
-                return Result(False, key=f'C16:bound:exception:{type(e).__name__}', detail=f'delta={dl}: {e!r}')
+                return Result(False, key=f'C16:bound:exception:{type(e).__name__}', detail=f'delta={d_arg!r} ({type(d_arg).__name__}): {e!r}')
             if set(b) != set(cfg['names']) or len(b) != len(cfg['names']):
                 return Result(False, key='C16:bound-keys', detail=f'bound keys {list(b)!r}')
             for f in cfg['names']:
